@@ -185,8 +185,10 @@ type verifMsgpTypeCtx struct {
 	recTurn   []byte
 	recursive bool
 	// unboundedDecl: a slice/map reachable from the type is DECLARED unbounded (allocbound=-). Such a type has no MaxSize and
-	// cannot be a network message; honouring a 2^32-1 length prefix there is what the declaration says, so the 32-bit
-	// length-prefix mutation is replaced by the 16-bit one for it (listed in the evidence), which keeps the run bounded.
+	// cannot be a network message (agreement crash state, one-time signature secrets, tx tail rows: the node's own disk).
+	// Honouring a 2^32-1 length prefix there is what the declaration says (measured on the unchanged tree: a 54-byte
+	// agreement.proposalTracker with a map32 header makes make(map) request > 13 GB and run for minutes), so for these types
+	// only mutation classes that cannot introduce a 32-bit length are used; this is listed in the evidence.
 	unboundedDecl string
 }
 
@@ -268,8 +270,11 @@ func verifMsgpBuildInput(seed uint64, cd *Codec, tc *verifMsgpTypeCtx, ci int) v
 	}
 	e := cd.Encode(o)
 	k := verifMsgpMutClasses[ci%len(verifMsgpMutClasses)]
-	if k == "len32" && tc.unboundedDecl != "" {
-		k = "len16"
+	if tc.unboundedDecl != "" {
+		switch k {
+		case "len32", "bitflip", "random-bytes":
+			k = []string{"len16", "wrong-type", "truncate"}[ci%3]
+		}
 	}
 	var rec []byte
 	if k == "recursive-nest" && tc.recursive {
@@ -284,6 +289,12 @@ func verifMsgpBuildInput(seed uint64, cd *Codec, tc *verifMsgpTypeCtx, ci int) v
 			return verifMsgpInput{Class: k, Bytes: out, Base: len(e)}
 		}
 		k = []string{"bitflip", "truncate", "random-bytes", "wrong-type", "deep-nest", "random-bytes"}[try]
+		if tc.unboundedDecl != "" {
+			k = []string{"truncate", "wrong-type", "deep-nest", "trailing-bytes", "valid", "valid"}[try]
+		}
+	}
+	if tc.unboundedDecl != "" {
+		return verifMsgpInput{Class: "valid", Bytes: e, Base: len(e)}
 	}
 	return verifMsgpInput{Class: "random-bytes", Bytes: r.Bytes(r.Intn(32)), Base: len(e)}
 }
@@ -600,7 +611,7 @@ func RunC41(t *testing.T, cd *Codec) {
 	}
 	c.Eval(int(c.Counter("decodes")))
 	c.Extra("alloc_oracle_unchecked_types(MaxSize unavailable)", unchecked)
-	c.Extra("types_with_declared_unbounded_collections(2^32-1 length prefixes not exercised, 2^16-1 used)", unboundedDecl)
+	c.Extra("types_with_declared_unbounded_collections(no 32-bit length prefixes, bit flips or random bytes exercised)", unboundedDecl)
 	c.Extra("recovered_panics_sample", recovered)
 	// types that never decoded successfully or never failed are listed (coverage honesty)
 	var neverOK []string
@@ -709,6 +720,52 @@ func verifMsgpSetLen(v reflect.Value, n int, g *verifMsgpGen) bool {
 	return false
 }
 
+type verifMsgpOwner struct {
+	ty    msgpmon.Type
+	index []int // field index path inside ty (empty for a named-type bound)
+}
+
+// verifMsgpOwners lists the generated types whose decoder contains the check of bound b: the declaring type itself and,
+// for a struct-field bound, every type of the package into which the struct is flattened by embedding.
+func verifMsgpOwners(p *msgpmon.Package, b *msgpmon.Bound) []verifMsgpOwner {
+	var out []verifMsgpOwner
+	for _, ty := range p.Types {
+		rt := reflect.TypeOf(ty.New()).Elem()
+		if b.Named != "" {
+			if ty.Name == b.Named {
+				out = append(out, verifMsgpOwner{ty: ty})
+			}
+			continue
+		}
+		if rt.Kind() != reflect.Struct {
+			continue
+		}
+		for _, vf := range reflect.VisibleFields(rt) {
+			if vf.Name != b.Field || vf.Anonymous {
+				continue
+			}
+			// declaring struct = type reached by the index path without its last step
+			dt := rt
+			okPath := true
+			for _, x := range vf.Index[:len(vf.Index)-1] {
+				f := dt.Field(x)
+				if !f.Anonymous {
+					okPath = false
+					break
+				}
+				dt = f.Type
+				if dt.Kind() == reflect.Ptr {
+					dt = dt.Elem()
+				}
+			}
+			if okPath && dt.Name() == b.Struct && dt.PkgPath() == rt.PkgPath() {
+				out = append(out, verifMsgpOwner{ty: ty, index: vf.Index})
+			}
+		}
+	}
+	return out
+}
+
 func verifMsgpProbe(c *kit.Ctx, cd *Codec) {
 	var unprobed []string
 	for pi, p := range msgpmon.Packages() {
@@ -721,160 +778,177 @@ func verifMsgpProbe(c *kit.Ctx, cd *Codec) {
 				site = p.Path + "." + b.Struct + "." + b.Field
 				owner = b.Struct
 			}
-			ty, ok := verifMsgpFindType(p, owner)
-			if !ok {
-				unprobed = append(unprobed, site+": owner type has no generated codec")
+			owners := verifMsgpOwners(p, b)
+			if len(owners) == 0 {
+				unprobed = append(unprobed, site+": no type with a generated codec declares or embeds "+owner)
 				continue
 			}
-			target := func(o msgpmon.Obj) (reflect.Value, bool) {
-				v := reflect.ValueOf(o).Elem()
-				if b.Named == "" {
-					v = v.FieldByName(b.Field)
-					if !v.IsValid() || !v.CanSet() {
-						return v, false
-					}
+			baseSite := site
+			for _, own := range owners {
+				ty := own.ty
+				site := baseSite
+				if ty.Name != owner {
+					site = baseSite + "(in " + ty.Name + ")" // the struct is flattened into ty: ty's decoder has its own copy of the check
 				}
-				return v, true
-			}
-			for level, bound := range b.Bounds {
-				if bound < 0 {
-					c.Count("probe_sites_declared_unbounded_or_unresolved", 1)
-					continue
-				}
-				tv, ok := target(ty.New())
-				if !ok {
-					unprobed = append(unprobed, site+": field not settable")
-					break
-				}
-				kind := tv.Type()
-				for kind.Kind() == reflect.Ptr {
-					kind = kind.Elem()
-				}
-				isMap := kind.Kind() == reflect.Map
-				if level > 0 && isMap {
-					// map key / value bounds: used by msgp for MaxSize only; probed as a separate class below
-					if level == 1 && kind.Key().Kind() == reflect.String {
-						o := ty.New()
-						v, _ := target(o)
+				target := func(o msgpmon.Obj) (reflect.Value, bool) {
+					v := reflect.ValueOf(o).Elem()
+					for i, x := range own.index {
 						for v.Kind() == reflect.Ptr {
-							v.Set(reflect.New(v.Type().Elem()))
-							v = v.Elem()
-						}
-						m := reflect.MakeMap(kind)
-						k := reflect.New(kind.Key()).Elem()
-						k.SetString(strings.Repeat("k", int(bound)+1))
-						m.SetMapIndex(k, reflect.New(kind.Elem()).Elem())
-						v.Set(m)
-						e := cd.Encode(o)
-						c.Eval(1)
-						if err := cd.Decode(e, ty.New()); err == nil {
-							c.Count("probe_secondary_bound_accepted", 1)
-							c.Violation("declared-map-key-bound-not-enforced-by-decoder:"+site, map[string]any{"site": site, "declared": b.Src, "key_bound": bound, "key_len": bound + 1,
-								"input_hex": verifMsgpHex(e), "note": "msgp uses the 2nd/3rd allocbound of a map for MaxSize only; the generated UnmarshalMsg does not check it"})
-						} else {
-							c.Count("probe_secondary_bound_rejected", 1)
-						}
-					}
-					continue
-				}
-				limit := int64(200000)
-				ek := kind.Kind()
-				if ek == reflect.String || (ek == reflect.Slice && kind.Elem().Kind() == reflect.Uint8) {
-					limit = 8 << 20
-				}
-				if level > 1 || bound+1 > limit {
-					unprobed = append(unprobed, fmt.Sprintf("%s[level %d]: bound %d too large to probe", site, level, bound))
-					continue
-				}
-				for _, n := range []int64{bound + 1, bound} {
-					o := ty.New()
-					v, _ := target(o)
-					r := c.Rand(42, uint64(pi), uint64(bi), uint64(level))
-					g := &verifMsgpGen{r: r, ix: ix, budget: 30, feat: map[string]int{}, small: true}
-					okSet := false
-					if level == 0 {
-						okSet = verifMsgpSetLen(v, int(n), g)
-					} else {
-						// level 1: outer slice of one element, inner collection of n
-						for v.Kind() == reflect.Ptr {
-							v.Set(reflect.New(v.Type().Elem()))
-							v = v.Elem()
-						}
-						if v.Kind() == reflect.Slice {
-							s := reflect.MakeSlice(v.Type(), 1, 1)
-							okSet = verifMsgpSetLen(s.Index(0), int(n), g)
-							v.Set(s)
-						}
-					}
-					if !okSet {
-						unprobed = append(unprobed, fmt.Sprintf("%s[level %d]: cannot build a collection of this kind", site, level))
-						break
-					}
-					var e []byte
-					if c.Guard("encode", map[string]any{"site": site}, func() { e = cd.Encode(o) }) {
-						break
-					}
-					var err error
-					c.Guard("decode", map[string]any{"site": site, "len": n}, func() { err = cd.Decode(e, ty.New()) })
-					c.Eval(1)
-					over := n > bound
-					switch {
-					case over && err == nil:
-						c.Violation("allocbound-not-enforced-by-decoder:"+site, map[string]any{"site": site, "declared": b.Src, "level": level, "bound": bound, "elements": n,
-							"input_len": len(e), "input_hex": verifMsgpHex(e)})
-					case over && (strings.Contains(err.Error(), "msgp: length overflow") || strings.Contains(err.Error(), "msgp: wanted array of size")):
-						c.Count("probe_over_bound_rejected", 1)
-						c.Distinct("probe|" + site + "|" + strconv.Itoa(level))
-					case over:
-						c.Count("probe_over_bound_rejected_for_another_reason", 1)
-						unprobed = append(unprobed, fmt.Sprintf("%s[level %d]: bound+1 rejected with %q (inconclusive for the bound)", site, level, verifMsgpShort1(err.Error())))
-					case err == nil:
-						c.Count("probe_at_bound_accepted", 1)
-					default:
-						c.Count("probe_at_bound_rejected", 1)
-						if strings.Contains(err.Error(), "msgp: length overflow") || strings.Contains(err.Error(), "msgp: wanted array of size") {
-							c.Violation("decoder-rejects-collection-at-declared-bound:"+site, map[string]any{"site": site, "declared": b.Src, "bound": bound, "elements": n, "error": err.Error()})
-						}
-					}
-				}
-			}
-			// maxtotalbytes: a MaxSize-only declaration in msgp; probe whether the decoder accepts more
-			if b.MaxTotal > 0 && b.Named == "" {
-				o := ty.New()
-				v, ok := target(o)
-				if ok {
-					for v.Kind() == reflect.Ptr {
-						v.Set(reflect.New(v.Type().Elem()))
-						v = v.Elem()
-					}
-					t := v.Type()
-					if t.Kind() == reflect.Slice && (t.Elem().Kind() == reflect.String || (t.Elem().Kind() == reflect.Slice && t.Elem().Elem().Kind() == reflect.Uint8)) {
-						cnt, each := int64(1), b.MaxTotal+1
-						if len(b.Bounds) > 1 && b.Bounds[1] >= 0 && each > b.Bounds[1] {
-							each = b.Bounds[1]
-							cnt = b.MaxTotal/each + 1
-						}
-						feasible := len(b.Bounds) == 0 || b.Bounds[0] < 0 || cnt <= b.Bounds[0]
-						if feasible && cnt*each < 64<<20 {
-							s := reflect.MakeSlice(t, int(cnt), int(cnt))
-							for i := 0; i < int(cnt); i++ {
-								verifMsgpSetLen(s.Index(i), int(each), nil)
+							if v.IsNil() {
+								if !v.CanSet() {
+									return v, false
+								}
+								v.Set(reflect.New(v.Type().Elem()))
 							}
-							v.Set(s)
+							v = v.Elem()
+						}
+						v = v.Field(x)
+						if i == len(own.index)-1 && !v.CanSet() {
+							return v, false
+						}
+					}
+					return v, true
+				}
+				for level, bound := range b.Bounds {
+					if bound < 0 {
+						c.Count("probe_sites_declared_unbounded_or_unresolved", 1)
+						continue
+					}
+					tv, ok := target(ty.New())
+					if !ok {
+						unprobed = append(unprobed, site+": field not settable")
+						break
+					}
+					kind := tv.Type()
+					for kind.Kind() == reflect.Ptr {
+						kind = kind.Elem()
+					}
+					isMap := kind.Kind() == reflect.Map
+					if level > 0 && isMap {
+						// map key / value bounds: used by msgp for MaxSize only; probed as a separate class below
+						if level == 1 && kind.Key().Kind() == reflect.String {
+							o := ty.New()
+							v, _ := target(o)
+							for v.Kind() == reflect.Ptr {
+								v.Set(reflect.New(v.Type().Elem()))
+								v = v.Elem()
+							}
+							m := reflect.MakeMap(kind)
+							k := reflect.New(kind.Key()).Elem()
+							k.SetString(strings.Repeat("k", int(bound)+1))
+							m.SetMapIndex(k, reflect.New(kind.Elem()).Elem())
+							v.Set(m)
 							e := cd.Encode(o)
 							c.Eval(1)
 							if err := cd.Decode(e, ty.New()); err == nil {
 								c.Count("probe_secondary_bound_accepted", 1)
-								c.Violation("declared-maxtotalbytes-not-enforced-by-decoder:"+site, map[string]any{"site": site, "declared": b.MaxTotalSrc, "maxtotalbytes": b.MaxTotal,
-									"elements": cnt, "bytes_each": each, "input_len": len(e), "note": "msgp uses maxtotalbytes for MaxSize only; the generated UnmarshalMsg does not check it"})
+								c.Violation("declared-map-key-bound-not-enforced-by-decoder:"+site, map[string]any{"site": site, "declared": b.Src, "key_bound": bound, "key_len": bound + 1,
+									"input_hex": verifMsgpHex(e), "note": "msgp uses the 2nd/3rd allocbound of a map for MaxSize only; the generated UnmarshalMsg does not check it"})
 							} else {
 								c.Count("probe_secondary_bound_rejected", 1)
 							}
-						} else {
-							unprobed = append(unprobed, site+": maxtotalbytes cannot be exceeded within the element bounds (or too large)")
 						}
-					} else {
-						unprobed = append(unprobed, site+": maxtotalbytes on a non byte-slice collection (MaxSize hint only)")
+						continue
+					}
+					limit := int64(200000)
+					ek := kind.Kind()
+					if ek == reflect.String || (ek == reflect.Slice && kind.Elem().Kind() == reflect.Uint8) {
+						limit = 8 << 20
+					}
+					if level > 1 || bound+1 > limit {
+						unprobed = append(unprobed, fmt.Sprintf("%s[level %d]: bound %d too large to probe", site, level, bound))
+						continue
+					}
+					for _, n := range []int64{bound + 1, bound} {
+						o := ty.New()
+						v, _ := target(o)
+						r := c.Rand(42, uint64(pi), uint64(bi), uint64(level))
+						g := &verifMsgpGen{r: r, ix: ix, budget: 30, feat: map[string]int{}, small: true}
+						okSet := false
+						if level == 0 {
+							okSet = verifMsgpSetLen(v, int(n), g)
+						} else {
+							// level 1: outer slice of one element, inner collection of n
+							for v.Kind() == reflect.Ptr {
+								v.Set(reflect.New(v.Type().Elem()))
+								v = v.Elem()
+							}
+							if v.Kind() == reflect.Slice {
+								s := reflect.MakeSlice(v.Type(), 1, 1)
+								okSet = verifMsgpSetLen(s.Index(0), int(n), g)
+								v.Set(s)
+							}
+						}
+						if !okSet {
+							unprobed = append(unprobed, fmt.Sprintf("%s[level %d]: cannot build a collection of this kind", site, level))
+							break
+						}
+						var e []byte
+						if c.Guard("encode", map[string]any{"site": site}, func() { e = cd.Encode(o) }) {
+							break
+						}
+						var err error
+						c.Guard("decode", map[string]any{"site": site, "len": n}, func() { err = cd.Decode(e, ty.New()) })
+						c.Eval(1)
+						over := n > bound
+						switch {
+						case over && err == nil:
+							c.Violation("allocbound-not-enforced-by-decoder:"+site, map[string]any{"site": site, "declared": b.Src, "level": level, "bound": bound, "elements": n,
+								"input_len": len(e), "input_hex": verifMsgpHex(e)})
+						case over && (strings.Contains(err.Error(), "msgp: length overflow") || strings.Contains(err.Error(), "msgp: wanted array of size")):
+							c.Count("probe_over_bound_rejected", 1)
+							c.Distinct("probe|" + site + "|" + strconv.Itoa(level))
+						case over:
+							c.Count("probe_over_bound_rejected_for_another_reason", 1)
+							unprobed = append(unprobed, fmt.Sprintf("%s[level %d]: bound+1 rejected with %q (inconclusive for the bound)", site, level, verifMsgpShort1(err.Error())))
+						case err == nil:
+							c.Count("probe_at_bound_accepted", 1)
+						default:
+							c.Count("probe_at_bound_rejected", 1)
+							if strings.Contains(err.Error(), "msgp: length overflow") || strings.Contains(err.Error(), "msgp: wanted array of size") {
+								c.Violation("decoder-rejects-collection-at-declared-bound:"+site, map[string]any{"site": site, "declared": b.Src, "bound": bound, "elements": n, "error": err.Error()})
+							}
+						}
+					}
+				}
+				// maxtotalbytes: a MaxSize-only declaration in msgp; probe whether the decoder accepts more
+				if b.MaxTotal > 0 && b.Named == "" {
+					o := ty.New()
+					v, ok := target(o)
+					if ok {
+						for v.Kind() == reflect.Ptr {
+							v.Set(reflect.New(v.Type().Elem()))
+							v = v.Elem()
+						}
+						t := v.Type()
+						if t.Kind() == reflect.Slice && (t.Elem().Kind() == reflect.String || (t.Elem().Kind() == reflect.Slice && t.Elem().Elem().Kind() == reflect.Uint8)) {
+							cnt, each := int64(1), b.MaxTotal+1
+							if len(b.Bounds) > 1 && b.Bounds[1] >= 0 && each > b.Bounds[1] {
+								each = b.Bounds[1]
+								cnt = b.MaxTotal/each + 1
+							}
+							feasible := len(b.Bounds) == 0 || b.Bounds[0] < 0 || cnt <= b.Bounds[0]
+							if feasible && cnt*each < 64<<20 {
+								s := reflect.MakeSlice(t, int(cnt), int(cnt))
+								for i := 0; i < int(cnt); i++ {
+									verifMsgpSetLen(s.Index(i), int(each), nil)
+								}
+								v.Set(s)
+								e := cd.Encode(o)
+								c.Eval(1)
+								if err := cd.Decode(e, ty.New()); err == nil {
+									c.Count("probe_secondary_bound_accepted", 1)
+									c.Violation("declared-maxtotalbytes-not-enforced-by-decoder:"+site, map[string]any{"site": site, "declared": b.MaxTotalSrc, "maxtotalbytes": b.MaxTotal,
+										"elements": cnt, "bytes_each": each, "input_len": len(e), "note": "msgp uses maxtotalbytes for MaxSize only; the generated UnmarshalMsg does not check it"})
+								} else {
+									c.Count("probe_secondary_bound_rejected", 1)
+								}
+							} else {
+								unprobed = append(unprobed, site+": maxtotalbytes cannot be exceeded within the element bounds (or too large)")
+							}
+						} else {
+							unprobed = append(unprobed, site+": maxtotalbytes on a non byte-slice collection (MaxSize hint only)")
+						}
 					}
 				}
 			}
